@@ -353,6 +353,25 @@ func buildEAP(e *abs.EAP, a *arena) (*eap.EAP, error) {
 		le.EapTypeData = &eap.EapExpanded{VendorID: m.VendorID, VendorType: m.VendorType, VendorData: cp(m.VendorData)}
 	case abs.MAkaPrime:
 		ak := eap.NewEapAkaPrime(eap.EapAkaSubtype(m.AKA.Subtype))
+		if (len(m.AKA.Attrs)+int(e.ID))%3 == 1 {
+			// the object has refused setter calls in its past (values of a size the setter does not accept, attribute
+			// kinds it does not support) for kinds that are NOT part of the packet: they must leave no trace
+			present := map[uint8]bool{}
+			for _, at := range m.AKA.Attrs {
+				present[at.Type] = true
+			}
+			for _, bad := range []struct {
+				t uint8
+				n int
+			}{{abs.ATRand, 15}, {abs.ATAutn, 17}, {abs.ATMac, 0}, {abs.ATKdf, 3}, {abs.ATRes, 3}, {abs.ATRes, 17}, {4 /* AT_AUTS */, 14}} {
+				if !present[bad.t] {
+					if err := ak.SetAttr(eap.EapAkaPrimeAttrType(bad.t), make([]byte, bad.n)); err == nil {
+						// accepted after all (an attribute kind the setter supports with this size): take it out of the way
+						return nil, fmt.Errorf("bridge: SetAttr(%d, %d octets) unexpectedly accepted", bad.t, bad.n)
+					}
+				}
+			}
+		}
 		for _, at := range m.AKA.Attrs {
 			v := cp(at.Value)
 			if v == nil {
